@@ -269,7 +269,7 @@ def walk(t, path="$"):
 def _exact(v, t) -> bool:
     """Does `t` (a non-union alternative) describe exactly the runtime shape of v at the top level?"""
     if is_anon_td(t):
-        return type(v) is dict and len(v) > 0 and all(isinstance(k, str) for k in v)
+        return type(v) is dict and len(v) > 0 and all(issubclass(type(k), str) for k in v)
     if t is typing.Callable:
         return isinstance(v, CALLABLE_TYPES) and not isinstance(v, type)
     if is_generic(t):
